@@ -577,6 +577,11 @@ fn gen_actor(p: &Profile, rng: &mut Rng) -> Case {
     if g.rng.chance(p.work, 10) {
         beh.item.push(Act::Work(g.rng.below(3) as u64));
     }
+    // an always-ready stream for a while: items take virtual time, so that clients get to run in between
+    let burst = stream && g.rng.chance(1, 4);
+    if burst {
+        beh.item = vec![Act::Work(1)];
+    }
     // faults
     let mut cancel = None;
     let mut fault_tag = "none";
@@ -769,6 +774,10 @@ fn gen_actor(p: &Profile, rng: &mut Rng) -> Case {
                             if g.rng.chance(1, 3) {
                                 ops.push(Op::JoinDiscard { h });
                             }
+                            if g.rng.chance(1, 4) {
+                                // a join future polled once and left pending while this client goes on
+                                ops.push(Op::JoinPark { h });
+                            }
                             ops.push(Op::Join { h })
                         }
                     }
@@ -786,7 +795,11 @@ fn gen_actor(p: &Profile, rng: &mut Rng) -> Case {
                 9 => ops.push(Op::Sleep(1 + g.rng.below(6) as u64)),
                 10 => {
                     if g.stream {
-                        if g.rng.chance(1, 6) {
+                        if burst && g.rng.chance(1, 2) {
+                            ops.push(Op::StreamBurst { a: 0, from: g.next_item, n: 70 });
+                            g.next_item += 70;
+                            ops.push(Op::Sleep(2 + g.rng.below(4) as u64));
+                        } else if g.rng.chance(1, 6) {
                             ops.push(Op::StreamEnd { a: 0 });
                         } else {
                             let k = g.next_item;
